@@ -30,12 +30,14 @@ type Env struct {
 	tgt    map[SymID]ObjID
 	sumSym map[SymID]bool // symbol stands for several values; facts may only be weakened
 	marks  map[string]bool // path marks set by observers; joined by intersection ("on every path")
+	ver    map[cellKey]int // version of strongly updatable cells (bumped by every write)
+	pure   map[string]tri  // outcome of pure comparisons over current cell versions, learned from branches
 	dead   bool
 }
 
 func newEnv() *Env {
 	return &Env{vals: map[ssa.Value]AV{}, cells: map[cellKey]AV{}, objs: map[ObjID]*objInfo{}, nilOf: map[SymID]nilness{},
-		shapes: map[SymID][]int{}, tgt: map[SymID]ObjID{}, sumSym: map[SymID]bool{}, marks: map[string]bool{}}
+		shapes: map[SymID][]int{}, tgt: map[SymID]ObjID{}, sumSym: map[SymID]bool{}, marks: map[string]bool{}, ver: map[cellKey]int{}, pure: map[string]tri{}}
 }
 
 func (e *Env) clone() *Env {
@@ -66,6 +68,14 @@ func (e *Env) clone() *Env {
 	n.marks = make(map[string]bool, len(e.marks))
 	for k, v := range e.marks {
 		n.marks[k] = v
+	}
+	n.ver = make(map[cellKey]int, len(e.ver))
+	for k, v := range e.ver {
+		n.ver[k] = v
+	}
+	n.pure = make(map[string]tri, len(e.pure))
+	for k, v := range e.pure {
+		n.pure[k] = v
 	}
 	return n
 }
@@ -112,6 +122,9 @@ func (e *Env) writeAV(b *strings.Builder, a AV, d int) {
 	if d > 6 {
 		b.WriteString("…")
 		return
+	}
+	if a.Expr != "" {
+		b.WriteString("E[" + a.Expr + "]")
 	}
 	switch a.K {
 	case KBot:
@@ -201,6 +214,14 @@ func (e *Env) key(live []ssa.Value) string {
 	sort.Ints(ss)
 	for _, s := range ss {
 		fmt.Fprintf(&b, "S%d=%v;", s, e.shapes[SymID(s)])
+	}
+	var pk []string
+	for k, v := range e.pure {
+		pk = append(pk, k+"="+v.String())
+	}
+	sort.Strings(pk)
+	for _, k := range pk {
+		b.WriteString("P:" + k + ";")
 	}
 	var mk []string
 	for m := range e.marks {
@@ -415,6 +436,27 @@ func (eng *Engine) joinEnvs(a, b *Env, site string, live []ssa.Value) *Env {
 			out.marks[m] = true
 		}
 	}
+	for k, va := range a.ver {
+		if vb, ok := b.ver[k]; ok && va == vb {
+			out.ver[k] = va
+		} else {
+			m := va
+			if vb > m {
+				m = vb
+			}
+			out.ver[k] = m + 1
+		}
+	}
+	for k, vb := range b.ver {
+		if _, ok := a.ver[k]; !ok {
+			out.ver[k] = vb + 1
+		}
+	}
+	for k, ta := range a.pure {
+		if tb, ok := b.pure[k]; ok && ta == tb {
+			out.pure[k] = ta
+		}
+	}
 	for s := range a.sumSym {
 		out.sumSym[s] = true
 	}
@@ -447,7 +489,7 @@ func (eng *Engine) joinEnvs(a, b *Env, site string, live []ssa.Value) *Env {
 		if !(inA && inB) {
 			continue
 		}
-		if oka && okb && fmt.Sprint(sa) == fmt.Sprint(sb) {
+		if oka == okb && fmt.Sprint(sa) == fmt.Sprint(sb) {
 			continue
 		}
 		oi := out.objs[t]
@@ -463,7 +505,7 @@ func (eng *Engine) joinEnvs(a, b *Env, site string, live []ssa.Value) *Env {
 		y, oky := b.vals[v]
 		switch {
 		case okx && oky:
-			out.vals[v] = j.joinAV(x, y, "v:"+v.Name())
+			out.vals[v] = j.joinAV(x, y, "v:"+v.Parent().Name()+"."+v.Name())
 		case okx:
 			out.vals[v] = x
 		case oky:
@@ -622,6 +664,17 @@ func (e *Env) dropObj(o ObjID) {
 	for k := range e.cells {
 		if k.Obj == o {
 			delete(e.cells, k)
+		}
+	}
+}
+
+// bump advances the version of a cell and forgets pure facts about its previous value.
+func (e *Env) bump(k cellKey) {
+	e.ver[k]++
+	tag := fmt.Sprintf("c%d%s@", k.Obj, k.Path)
+	for f := range e.pure {
+		if strings.Contains(f, tag) {
+			delete(e.pure, f)
 		}
 	}
 }
